@@ -77,8 +77,9 @@ def setup(M):
     def mk_td(sign, name):
         def post(ret, a, k, snap):
             d = a[1]
-            days = dt.timedelta.days.__get__(d)
-            if days:
+            # a negative timedelta shorter than a day is stored as days=-1 plus a positive remainder: "a day component"
+            # is certain only from one whole day on; in between either a TypeError or the exact result is accepted
+            if abs(td_us(d)) >= DAY:
                 M.check(name, False, f"C20/{name}:day-component-accepted", "timedelta with a day component accepted",
                         start=str(a[0]), delta=repr(d), got=str(ret))
                 return
@@ -89,7 +90,7 @@ def setup(M):
         def exc(e, a, k, snap):
             d = a[1]
             days = dt.timedelta.days.__get__(d)
-            M.check(name, days != 0 and isinstance(e, TypeError), f"C20/{name}:raised-{type(e).__name__}",
+            M.check(name, days != 0 and isinstance(e, TypeError), f"C20/{name}:raised-{type(e).__name__}",   # days == -1 for every negative one
                     "raised for a timedelta without a day component (or wrong exception type)", start=str(a[0]), delta=repr(d),
                     exc=repr(e))
         return post, exc
@@ -155,7 +156,7 @@ def cases(M):
             amt = [24 * r.randrange(-3, 4), 0, 0, r.choice((0, 1, -1))]
         t2 = r.choice((r.randrange(DAY), (t + r.randrange(-2 * US, 2 * US)) % DAY, r.choice(edge)))
         t3 = r.choice((r.randrange(DAY), (t + r.randrange(-2 * US, 2 * US)) % DAY, (2 * t - t2) % DAY))
-        yield {"t": t, "amt": amt, "t2": t2, "t3": t3, "td": r.choice((r.randrange(DAY), r.randrange(-DAY, 3 * DAY), r.randrange(US)))}
+        yield {"t": t, "amt": amt, "t2": t2, "t3": t3, "td": r.choice((r.randrange(DAY), r.randrange(-DAY, 3 * DAY), r.randrange(US), -r.randrange(1, 3 * US), -r.randrange(1, DAY)))}
 
 
 def _mk(M, us):
@@ -182,7 +183,7 @@ def run(M, c):
     for name, fn, sign in (("+", lambda: t + d, 1), ("-", lambda: t - d, -1)):
         try:
             r_ = fn()
-            ok = d.days == 0 and type(r_) is T and tus(r_) == (c["t"] + sign * c["td"]) % DAY
+            ok = abs(c["td"]) < DAY and type(r_) is T and tus(r_) == (c["t"] + sign * c["td"]) % DAY
             got = str(r_)
         except TypeError as e:
             ok = d.days != 0
